@@ -119,7 +119,14 @@ func (c *Ctx) ruleDecodeSiblings(rule string) {
 					k++
 					good := g.DominatedByCond(rs, func(core ast.Expr, val bool) bool {
 						be, ok := unparen(core).(*ast.BinaryExpr)
-						if !ok || objOf(info, be.X) != errObj || !refersTo(info, be.Y, "errUnknown") {
+						if !ok {
+							return false
+						}
+						x, y := be.X, be.Y
+						if objOf(info, y) == errObj {
+							x, y = y, x
+						}
+						if objOf(info, x) != errObj || !refersTo(info, y, "errUnknown") {
 							return false
 						}
 						return (be.Op == token.NEQ && val) || (be.Op == token.EQL && !val)
@@ -258,10 +265,17 @@ func (c *Ctx) ruleConsumeTagRange(rule string, pkgs []string, floor int) {
 					uses++
 					dom := g.DominatedByCond(uid, func(core ast.Expr, val bool) bool {
 						be, ok := unparen(core).(*ast.BinaryExpr)
-						if !ok || val || be.Op != token.GTR || objOf(info, be.X) != numObj {
+						if !ok || val {
 							return false
 						}
-						nm, isC := labelName(info, be.Y)
+						x, y, op := be.X, be.Y, be.Op
+						if objOf(info, y) == numObj {
+							x, y, op = y, x, flipOp(op)
+						}
+						if op != token.GTR || objOf(info, x) != numObj {
+							return false
+						}
+						nm, isC := labelName(info, y)
 						return isC && nm == "MaxValidNumber"
 					})
 					if !dom {
@@ -270,8 +284,12 @@ func (c *Ctx) ruleConsumeTagRange(rule string, pkgs []string, floor int) {
 						g2 := false
 						_ = g2
 						walkAll(fi.Decl.Body, func(y ast.Node) bool {
-							if be, ok := y.(*ast.BinaryExpr); ok && be.Op == token.GTR && be.X == ast.Expr(uid) {
-								if nm, isC := labelName(info, be.Y); isC && nm == "MaxValidNumber" {
+							if be, ok := y.(*ast.BinaryExpr); ok && (be.Op == token.GTR || be.Op == token.LSS) && (be.X == ast.Expr(uid) || be.Y == ast.Expr(uid)) {
+								other := be.Y
+								if be.Y == ast.Expr(uid) {
+									other = be.X
+								}
+								if nm, isC := labelName(info, other); isC && nm == "MaxValidNumber" {
 									isTest = true
 								}
 							}
@@ -343,10 +361,17 @@ func (c *Ctx) ruleReflErrSkip(rule string, floor int) {
 		for i, sk := range skips {
 			good := g.DominatedByCond(sk, func(core ast.Expr, val bool) bool {
 				be, ok := unparen(core).(*ast.BinaryExpr)
-				if !ok || objOf(info, be.X) != errObj {
+				if !ok {
 					return false
 				}
-				nm, isVar := unparen(be.Y).(*ast.Ident)
+				x, y := be.X, be.Y
+				if objOf(info, y) == errObj {
+					x, y = y, x
+				}
+				if objOf(info, x) != errObj {
+					return false
+				}
+				nm, isVar := unparen(y).(*ast.Ident)
 				if !isVar || nm.Name != "errUnknown" {
 					return false
 				}
